@@ -70,9 +70,16 @@ func (t *floatScalar) CoerceOut(v interface{}) (interface{}, error) {
 	case nil:
 		// remains nil
 	case float32:
-		// ok as is
+		if math.IsInf(float64(tv), 0) || tv != tv {
+			v = nil
+			err = newCoerceErr(tv, "Float")
+		}
 	case float64:
 		v = float32(tv)
+		if math.IsInf(float64(float32(tv)), 0) || tv != tv {
+			v = nil
+			err = newCoerceErr(tv, "Float")
+		}
 	case int:
 		v = float32(tv)
 	case int8:
@@ -97,6 +104,10 @@ func (t *floatScalar) CoerceOut(v interface{}) (interface{}, error) {
 		var f float64
 		if f, err = strconv.ParseFloat(tv, 64); err == nil {
 			v = float32(f)
+			if math.IsInf(float64(float32(f)), 0) || f != f {
+				v = nil
+				err = newCoerceErr(tv, "Float")
+			}
 		}
 	default:
 		v = nil
